@@ -34,7 +34,7 @@ def FullStatement_alpha_variables_all26 (V : Vr) (s : SchemaD) (fx : Fixes) (d :
   ∀ r ∈ Rule.all, (SilentM s fx r (V.doc d) ↔ SilentM s fx r d)
 
 /-- **alpha_variables for ALL 26 RULES**, each rule alone, the overlap rule being the memoised one /repo runs: injective
-    renaming; the side conditions of `rule_overlapping_fields_memo_iff` are the only hypotheses on the document -/
+    renaming; the side conditions of `rule_overlapping_fields_memo_iff` are the only hypotheses on the document [ALONE-RUN statement, rule by rule: each rule visitor in a chain of its own; for the verdict of the chain `validate_ast` runs see `Props/C06_chain.lean: chainM_six_transformations`.] -/
 theorem alpha_variables_all26 (V : Vr) (hinj : ∀ a b, V.var a = V.var b → a = b) (s : SchemaD) (fx : Fixes)
     (hfx : HeadVars fx) (d : Doc) (hpa : Spec.ParentsAgree s d) (hne : NamesNonEmpty d) (hw : WfIds d) :
     FullStatement_alpha_variables_all26 V s fx d := by
@@ -47,7 +47,7 @@ theorem alpha_variables_all26 (V : Vr) (hinj : ∀ a b, V.var a = V.var b → a 
     exact alpha_variables_all25_partial V hinj s fx hfx.1 hfx.2.1 d r ho
 
 /-- **the VERDICT of the chain /repo runs is invariant under an injective renaming of variables** (hypotheses: those of
-    the headline theorems only) -/
+    the headline theorems only) [About the CONJUNCTION OF THE 26 ALONE RUNS (`SilentM`); the same for the chain itself, `SkipNode` handling included: `Props/C06_chain.lean: chainM_six_transformations`, through `chainM_silent_iff_alone`.] -/
 theorem alpha_variables_verdict_invariance_memo (V : Vr) (hinj : ∀ a b, V.var a = V.var b → a = b) (s : SchemaD)
     (fx : Fixes) (hfx : HeadVars fx) (hs : SchemaOutputs s) (d : Doc) (hd : DocOkM s d) :
     (∀ r ∈ Rule.all, SilentM s fx r (V.doc d)) ↔ (∀ r ∈ Rule.all, SilentM s fx r d) := by
